@@ -8,7 +8,7 @@ import pipe
 
 ID = "C05"
 MODULE = "C05"
-IMPORTS = "Bytes RustInt Range CacheControl Cache CacheProofs Fixture RustStd Vary VaryProofs VaryWire VaryWireProofs"
+IMPORTS = "Bytes RustInt Range CacheControl Cache CacheProofs Fixture CacheX CacheXProofs RustStd Vary VaryProofs VaryWire VaryWireProofs"
 PROFILES = ("dev",)
 
 RULE = ("histories through the real kvarn::handle_cache in process (component vary.run, harness/src/c05.rs on top of c00pipe.rs) and over one loopback "
@@ -17,10 +17,13 @@ RULE = ("histories through the real kvarn::handle_cache in process (component va
         "{lower-case, first-byte class lo/hi/none, length mod 3, constant} implemented in Rust and in Gallina, default incl. defaults equal to a class), "
         "registered under the exact path or under a pattern '<prefix>*' (longer pattern / exact path win), server cache preference Full or QueryMatters, "
         "bodies below and above the 50-byte floor of the compressor, with and without the default extensions (Prime uri_redirect in front); served by a "
-        "counting handler that echoes its own transformed tuple (and the query on QueryMatters pages); requests GET/HEAD/POST whose rule headers are "
+        "counting handler that echoes its own transformed tuple (and the query on QueryMatters pages), on 'picky' pages declaring no server caching "
+        "for some tuples (those variants must be recomputed by every request and never appear in a dump); requests GET/HEAD/POST whose rule headers are "
         "absent, present (same class / different class), empty, repeated with values of different classes, or not text (obs-text bytes), with "
-        "accept-encoding, If-Modified-Since (start + 100 s = fresh for every entry, start - 100 s = for none), and on the wire Range (satisfiable, starting "
-        "after the end, start > end, unparsable); every history = first pass in some arrival order, dump of the stored variant vector, second pass, "
+        "accept-encoding, If-Modified-Since (start + 100 s = fresh for every entry, start - 100 s = for none; with a tuple that is stored -> 304, with one "
+        "that is not -> computed), and on the wire Range (satisfiable, starting after the end, start > end, unparsable; together with a fresh "
+        "If-Modified-Since: the 304 goes out as it is); page clears of the URL as requested and of its '.'/'/' form (clear_page also clears the default "
+        "redirect target); every history = first pass in some arrival order, dump of the stored variant vector, second pass, "
         "dump; thorough: all arrival orders of every chosen request multiset of size <= 5, random orders beyond; quick: all orders of size <= 4 for a few "
         "sets, all orders of 2-4 tuples whose components run together to the same text (('ab','c') / ('a','bc') / ('abc','') ...) + random. Compared per "
         "request with the extracted model: status, vary header, decoded body, identity body, handler invocation log; per dump: "
@@ -28,9 +31,11 @@ RULE = ("histories through the real kvarn::handle_cache in process (component va
         "finite map (page, transformed tuple) -> response (pages stored under the path key, no conditional requests); (2) an independent reading of the "
         "property in Python on the implementation's output alone (every sequential history, in process and on the wire, incl. QueryMatters pages and "
         "conditional requests): a store cache key -> set of tuples; a request is answered without a handler invocation exactly when its own tuple (and "
-        "query) was computed since the last clear, with exactly one otherwise; every 200/206 body is the rendering of the request's own transformed tuple; "
+        "query) was computed since the last clear, with exactly one otherwise; a 304 is the answer exactly when the date is fresh AND the request's own "
+        "tuple was computed since the last clear (a 304 for any other tuple is a violation), whatever the Range header; every 200/206 body is the "
+        "rendering of the request's own transformed tuple; "
         "every response with a body carries exactly one vary line 'accept-encoding, range' + the rule headers of the page, 416/404/400/406 included; "
-        "no dumped vector holds two variants with equal lists. distinct_nontrivial = histories that stored >= 3 variants on one page / wire histories "
+        "no dumped vector holds two variants with equal lists, and every dump holds exactly the tuples computed and admitted since the last clear. distinct_nontrivial = histories that stored >= 3 variants on one page / wire histories "
         "with >= 2 different statuses")
 ASSUMPTIONS = [
     "sequential histories in the theorems about serveV (one request at a time); the one suspension point of handle_cache (the await on the handler in "
@@ -41,31 +46,40 @@ ASSUMPTIONS = [
     "sanitize and carry no If-Modified-Since (theorem hypotheses; for QueryMatters pages and conditional requests the same is checked by the Python "
     "history oracle and by the correspondence, and follows from vector_refines_assoc_list + C03's theorems)",
     "rule sets are looked up through the model of extensions::RuleSet (Model/RuleSet.v, C14's subject; here exact paths and patterns of different "
-    "lengths); internal '/./' override URIs of Prime extensions are not modelled (the cache key would be the override path, the rules those of the client path)",
+    "lengths); internal '/./' override URIs of Prime extensions are not modelled in Model/Vary.v (cache key and vary rules are then those of the override "
+    "URI, kvarn 9992768 / 95589fa: C03's subject, Model/CacheX.v, to which vector_refines_assoc_list connects the vector model for hosts without them)",
     "HeaderMap::get(&str) for rule names longer than 64 bytes is modelled by the same normalisation as for shorter ones (not generated)",
     "content negotiation is abstract (C06): bodies are compared after decoding content-encoding with standard decoders (bodies above the 50-byte floor "
     "with accept-encoding are generated); streaming responses (a `future` in the reply) are not modelled: handle_cache skips apply_header for a stream "
-    "without announced length, send does not apply ranges to streams (apply_header's no_range branch is in the model but unreachable from serveV)",
+    "without announced length in either arm (kvarn 00528a6), never stores one, send does not apply ranges to streams (apply_header's no_range branch is "
+    "in the model but unreachable from serveV); C03/C04 cover them in Model/CacheX.v",
+    "handle_vary_missing admits a new variant like a new item (kvarn 8fe98d4, 92a9cd2: preference, method, status filter, kvarn-cache-control, size "
+    "limit; a query-dependent response only into an item keyed with the query; lifetime capped by the variant's own): modelled and covered by every "
+    "theorem (invariant, refinement of Model/CacheX.v, served_copy_is_held); exercised by pages whose handler (kind 6, harness/src/c05.rs) declares no "
+    "server caching for some transformed tuples; the other reasons for a refusal (status filter, kvarn-cache-control, size, a query-dependent variant "
+    "of a path-keyed item) need per-variant statuses/headers/preferences the fixture does not have: exercised by C04 (pipex.run)",
     "on the wire: wire_vary_advertised assumes that the operator's Package extensions leave `vary` alone (hypothesis; the ones of Extensions::new() do, "
     "observed); what send does besides (content-length, connection, version) is C08's subject and not in Model/VaryWire.v; the answers handle_connection "
     "gives before a host's page is consulted (429 of the limiter, 409 for an unknown host) carry no vary and are outside the property (they do not "
     "depend on the path: 'when a path has vary rules'); HTTP/2 and HTTP/3 write the same head (not run)",
     "kvarn's HTTP/1 parser keeps the last of repeated header lines (HeaderMap::insert in utils/src/parse.rs: C07's subject), so handle_cache never sees a "
     "repeated rule header on an HTTP/1 connection: repeated headers are exercised in process only",
-    "If-Modified-Since: the 304 is decided on the entry's date before the variants are looked at (not_modified_before_variant_lookup; a request whose own "
-    "tuple was never computed gets it: not_modified_only_for_stored_variant_refuted, replayed on the code). That this is harmless for a client that "
-    "sends back the last-modified it was given for the same URL and the same transformed tuple is proved per entry (not_modified_same_entry_sound: the "
-    "entry holds for that tuple the variant the client was served; entry_changes_are_dated: a value never changes under its date) and over histories "
-    "(honest_not_modified_sound + served_copy_is_held) under three explicit premises: every later request happens at a time after the client's date "
-    "(a clock that moves on), the entry the 304 is decided on is not younger than that date (what the freshness test establishes up to the one-second "
-    "resolution of HTTP dates: C04's not_modified_arithmetic is the other half, not composed here), and the URL is cached under one of its two keys "
+    "If-Modified-Since: since kvarn 832d735 the 304 needs a fresh date for the entry AND the request's own variant in it "
+    "(not_modified_only_for_stored_variant; before: the date alone, not_modified_only_for_stored_variant_v0_refuted, observed on the code then). That "
+    "the 304 is the truth for a client that sends back the last-modified it was given for the same URL and the same transformed tuple is proved per "
+    "entry (not_modified_same_entry_sound: the entry holds for that tuple the variant the client was served; entry_changes_are_dated: a value never "
+    "changes under its date) and over histories (honest_not_modified_sound + served_copy_is_held) under three explicit premises: every later request "
+    "happens at a time after the client's date (a clock that moves on), the entry the 304 is decided on is not younger than that date (what the "
+    "freshness test establishes up to the one-second resolution of HTTP dates: C04's not_modified_arithmetic is the other half, not composed here), "
+    "and the URL is cached under one of its two keys "
     "only (pages that do not switch between the preferences QueryMatters and Full)",
 ]
 TRUSTED = ["modelled: src/vary.rs (Settings::add_rule's assertion, VariedResponse::{new,push_response,get,get_headers_for_request,get_by_request,first}, "
            "get_header, apply_header, apply_header_from_settings, derived Ord of Header and Ord of slices), src/lib.rs handle_cache + "
-           "handle_cache_helpers::{maybe_cache, handle_vary_missing} (as in Model/Cache.v, with the variant vector instead of an association list), "
-           "SendKind::send as far as status, body and vary go (Model/VaryWire.v: apply_to_response = Model/Range.v, the 416 replacement, resolve_package "
-           "abstract, HEAD), extensions::RuleSet::{add_mut,get} (Model/RuleSet.v), rustc 1.95 slice::binary_search_by (Model/RustStd.v), http 1.5.0 "
+           "handle_cache_helpers::{maybe_cache, get_cache, handle_vary_missing}, comprash::{server_cache_lifetime, MokaCache::insert} (as in Model/CacheX.v, "
+           "with the variant vector instead of an association list), Collection::clear_page + extensions::uri_redirect_target (Model/Cache.v "
+           "redirect_target), SendKind::send as far as status, body and vary go (Model/VaryWire.v: the body dropped after 1xx/204/304, a 304 not "
+           "range-sliced, apply_to_response = Model/Range.v, the 416 replacement, resolve_package abstract, HEAD), extensions::RuleSet::{add_mut,get} (Model/RuleSet.v), rustc 1.95 slice::binary_search_by (Model/RustStd.v), http 1.5.0 "
            "HeaderMap::get(&str) name normalisation (HEADER_CHARS), HeaderValue::to_str; handlers/transformations are the fixture menu "
            "(harness/src/c00pipe.rs = Model/Fixture.v, kind 5 in harness/src/c05.rs = Model/Vary.v compute_c05); the dump reads the field names "
            "`name`/`transformed` and string literals out of VariedResponse's Debug output (nothing else of it; an unreadable dump is skipped and reported, "
@@ -73,8 +87,9 @@ TRUSTED = ["modelled: src/vary.rs (Settings::add_rule's assertion, VariedRespons
 LEVEL_TEXT = ("Coq theorems, for all rule sets (any number of rules, names, transformations, defaults), all header values and all histories "
               "(requests, page clears, clear-all, waits/expiry): vary_served_for_equal_tuple — by an inductive invariant on the cache (every variant "
               "vector strictly sorted for Rust's Ord on [Header], built with the page's rules, every stored response computed for a request of that page "
-              "with exactly the stored transformed list) no step panics and every reply is a 304, a stored response computed for a request with the same "
-              "path and an equal transformed list, or the response computed now for this very request; variants_sorted (no two entries with equal lists); "
+              "with exactly the stored transformed list) no step panics and every reply is a stored response computed for a request with the same "
+              "path and an equal transformed list (or the bare 304 that vouches for such a stored response - never for another tuple), or the "
+              "response computed now for this very request; variants_sorted (no two entries with equal lists); "
               "lookup_refines_map / insert_refines_map / lookup_never_wrong_variant (rustc 1.95 binary_search_by on the vector = finite map; exact match "
               "even on an unsorted vector); vary_refines_map — the server's observations and handler invocations equal those of a finite-map server "
               "(page, transformed list) -> response for every history when GET/HEAD responses are cacheable under the path key without expiry; "
@@ -82,16 +97,21 @@ LEVEL_TEXT = ("Coq theorems, for all rule sets (any number of rules, names, tran
               "wire_vary_advertised for what SendKind::send passes to the connection: for every history, every sanitize verdict and every range, each "
               "response with a non-empty body — the reply, a range cut out of it, or the 416 page that replaces it — carries vary: accept-encoding, "
               "range, <rule headers>, given Package extensions that leave vary alone; send_keeps_vary (send without replacement never changes vary); "
+              "wire_not_modified_as_is (a 304 is sent as it is whatever the Range header, fix 9ae9b1a); "
               "wire_416_without_vary_v0_refuted: before the repair of send (fix 21f0154) the 416 page had no vary (fixture history reproduced on the "
               "code + for every page); stale_position_safe for the repaired handle_vary_missing (second half of a request against any "
               "invariant-satisfying cache) with stale_position_v0_refuted for the code before that repair; If-Modified-Since: "
-              "not_modified_before_variant_lookup (the 304 depends on the entry's date only), not_modified_only_for_stored_variant_refuted (a tuple never "
-              "computed gets it; on the code too), not_modified_same_entry_sound + entry_changes_are_dated (a client whose copy stems from the entry "
+              "not_modified_only_for_stored_variant (merged code, fix 832d735: with a fresh date the 304 is sent when the entry holds the variant the "
+              "request selects; a request whose own tuple is not in the entry runs the handler once and gets its own response), "
+              "not_modified_only_for_stored_variant_v0_refuted (before that fix the first half of handle_cache answered 304 on the entry's date alone: "
+              "for every cache and request, + the fixture history observed on the code then and its outcome now), not_modified_same_entry_sound + entry_changes_are_dated (a client whose copy stems from the entry "
               "the 304 is decided on holds the variant that entry has for its tuple; no value changes under its date), honest_not_modified_sound + "
               "served_copy_is_held (over all histories: a client that was served, or had computed and stored/pushed, the response f for its tuple with "
-              "date L is told 'not modified' on the strength of an entry not younger than L only while that entry holds f for its tuple; premises: "
+              "date L is told 'not modified' on the strength of an entry not younger than L only while that entry holds f for its tuple; a pushed "
+              "variant that is not admitted to the cache - fixes 8fe98d4, 92a9cd2 - leaves the cache as it was; premises: "
               "later requests happen after L, one cache key per URL); vector_refines_assoc_list + "
-              "vary_cache_transparent connect the vector model to Model/Cache.v and C03's transparency. Tied to the repo by the differential run of the "
+              "vary_cache_transparent connect the vector model to Model/CacheX.v (C03/C04's model of the merged code, all repairs on) and C03's "
+              "transparency (now without the premise that query-dependence is uniform per path). Tied to the repo by the differential run of the "
               "real kvarn::handle_cache and of kvarn::handle_connection (loopback) against the extracted models (incl. the order of the stored vector), "
               "the finite-map spec oracle and an independent Python reading of the property on the implementation's output. Not proved: the composition of "
               "honest_not_modified_sound with the one-second arithmetic of the freshness test (C04); streaming replies.")
@@ -121,8 +141,9 @@ class Page:
     """one page: handler path, vary rules (rule name, xform, default, request header name or None), server cache
     preference (2 Full / 1 QueryMatters), body prefix, and the path or pattern its rule set is registered under"""
 
-    def __init__(self, path, rules, spref=2, prefix=None, rule_path=Ellipsis, echo=None):
+    def __init__(self, path, rules, spref=2, prefix=None, rule_path=Ellipsis, echo=None, picky=False):
         self.path, self.rules, self.spref, self.prefix = path, rules, spref, prefix
+        self.picky = picky                              # handler kind 6: no server caching for some tuples
         self.rule_path = path if rule_path is Ellipsis else rule_path
         self.echo = rules if echo is None else echo     # what the handler renders (normally the rules' tuple)
 
@@ -200,7 +221,9 @@ def config(pages, cache=True, default_ext=False, report=None):
         prefix = pg.prefix if pg.prefix is not None else b"T%d" % i
         # QueryMatters pages echo the query too (handler kind 5, harness/src/c05.rs): a variant served for another
         # query is then visible in the body
-        hs.append(pipe.H(pg.path, kind=5 if pg.spref == 1 else 3, body=prefix, spref=pg.spref, tuple_=tup))
+        # picky pages (handler kind 6, harness/src/c05.rs): the handler declares no server caching for the tuples whose
+        # first component is empty or starts with 'n', 'z', '0': variants that handle_vary_missing must not admit
+        hs.append(pipe.H(pg.path, kind=6 if pg.picky else 5 if pg.spref == 1 else 3, body=prefix, spref=pg.spref, tuple_=tup))
         if pg.rule_path is not None and pg.rule_path not in seen and (pg.rules or i % 2 == 0 or pg.rule_path != pg.path):
             seen.add(pg.rule_path)
             vs.append(pipe.vary_rule(pg.rule_path, [(n, xf, d) for (n, xf, d, _) in pg.rules]))
@@ -449,6 +472,44 @@ def wire(rng):
     return mk(cfg, ops, "wire", spec=False, comp="vary.wire")
 
 
+def picky(rng, wire_=False):
+    """a page whose variants differ in cacheability (handler kind 6): the refused ones are recomputed by every request and
+    never enter the item (kvarn 8fe98d4), also when the date of a conditional request is fresh for the item (832d735)"""
+    rules = gen_rules(rng, rng.choice([1, 1, 2]))
+    while not rules or rules[0][3] is None:
+        rules = gen_rules(rng, rng.choice([1, 2]))
+    pages = [Page(b"/v", rules, picky=True)]
+    cfg = config(pages, report=WIRE_REPORT if wire_ else None)
+    xf0 = rules[0][1]
+    firsts = {0: [b"en", b"zz", b"", b"Nope", b"a", b"de", b"n"], 1: [b"apple", b"", b"zebra", b"Mango"], 2: [b"", b"abc", b"a", b"ab"],
+              3: [b"x", b""]}[xf0]
+    pool = []
+    for _ in range(rng.randrange(4, 9)):
+        hdrs = rand_headers(rng, rules[1:], encodings=False, p_repeat=0.0 if wire_ else 0.12)
+        hdrs = [(n, v) for (n, v) in hdrs if n != rules[0][3] and (not wire_ or v == v.strip(b" \t"))]
+        if wire_:
+            hdrs = [(n, v) for k, (n, v) in enumerate(hdrs) if n not in [m for (m, _) in hdrs[:k]]]
+        if rng.random() < 0.85:
+            hdrs.insert(rng.randrange(len(hdrs) + 1), (rules[0][3], rng.choice(firsts)))
+        pool.append(hdrs)
+    ops = []
+    for _ in range(rng.randrange(8, 18)):
+        hdrs = list(rng.choice(pool))
+        if rng.random() < 0.3:
+            hdrs.append((b"if-modified-since", b"@T+100" if rng.random() < 0.8 else b"@T-100"))
+        if wire_ and rng.random() < 0.2:
+            hdrs.append((b"range", rng.choice(RANGES)))
+        ops.append(pipe.req(b"/v", method=rng.choice([b"GET", b"GET", b"GET", b"HEAD"]), addr=1 if wire_ else rng.randrange(1, 4), headers=hdrs))
+        x = rng.random()
+        if x < 0.06:
+            ops.append(pipe.clear_page(b"/v"))
+        elif x < 0.2 and not wire_:
+            ops += dumps(pages)
+    if not wire_:
+        ops += dumps(pages)
+    return mk(cfg, ops, "picky-wire" if wire_ else "picky", spec=False, comp="vary.wire" if wire_ else "vary.run")
+
+
 def malformed(rng):
     """rule names that add_rule rejects (panic while the host is built), odd header values"""
     bad = rng.choice([b"x\x01a", b"x\x7f", b"caf\xc3\xa9", b"\x00"])
@@ -534,13 +595,14 @@ def corpus_cases():
     cases.append(mk(cfg, [R(b"a", b"/p?x=1"), R(b"b", b"/p?x=1"), R(b"b", b"/p?x=2"), R(b"a", b"/p?x=2"), R(b"a", b"/p")] + Dq +
                     [R(b"b", b"/p?x=1"), R(b"a", b"/p?x=1"), R(b"b", b"/p?x=2"), R(b"c", b"/p"), pipe.clear_page(b"/p?x=1"), R(b"b", b"/p?x=1"),
                      R(b"b", b"/p?x=2")] + Dq, "corpus-query-matters", spec=False))
-    # If-Modified-Since: 304 for a tuple that was never computed (not_modified_only_for_stored_variant_refuted), full reply for an old date
+    # If-Modified-Since: a tuple that was never computed is computed (304 before kvarn 832d735: not_modified_only_for_stored_variant_v0_refuted),
+    # full reply for an old date, 304 for the stored tuple
     pages = [Page(b"/v", [(b"x-a", 0, b"dflt", b"x-a")])]
     cfg = config(pages)
     cases.append(mk(cfg, [R(b"a"), R(b"zz", more=[(b"if-modified-since", b"@T+100")]), D, R(b"zz"), R(b"zz", more=[(b"if-modified-since", b"@T-100")]),
                           R(b"a", more=[(b"if-modified-since", b"@T+100")], method=b"HEAD"), D], "corpus-if-modified-since", spec=False))
     # on the wire: the 416 page that send() substitutes (wire_416_without_vary_v0_refuted), a range of a variant, HEAD, an empty
-    # page and the 416 that replaces it, 404, 400, a 304 and the 416 that replaces it
+    # page and the 416 that replaces it, 404, 400, a conditional request for a tuple that is not stored, a 304 with a range (sent as it is)
     pages = [Page(b"/v", [(b"x-a", 0, b"dflt", b"x-a")]), Page(b"/e", [(b"x-a", 0, b"dflt", b"x-a")], prefix=b"", echo=[])]
     cfgw = config(pages, report=WIRE_REPORT)
     RG = lambda v: (b"range", v)
@@ -568,6 +630,8 @@ def generate(rng, tier):
         cases += [wire(rng) for _ in range(60)]
         cases += [malformed(rng) for _ in range(4)]
         cases += [interleaved(rng) for _ in range(30)]
+        cases += [picky(rng) for _ in range(40)]
+        cases += [picky(rng, True) for _ in range(12)]
     else:
         cases += exhaustive_orders(rng, 2, "orders", 20)
         cases += exhaustive_orders(rng, 3, "orders", 60)
@@ -583,6 +647,8 @@ def generate(rng, tier):
         cases += [wire(rng) for _ in range(1500)]
         cases += [malformed(rng) for _ in range(12)]
         cases += [interleaved(rng) for _ in range(600)]
+        cases += [picky(rng) for _ in range(1000)]
+        cases += [picky(rng, True) for _ in range(300)]
     return cases
 
 
@@ -596,6 +662,8 @@ def directed(rng, mismatches):
     cases += [with_prime(rng) for _ in range(150)]
     cases += [conditional(rng) for _ in range(100)]
     cases += [wire(rng) for _ in range(200)]
+    cases += [picky(rng) for _ in range(150)]
+    cases += [picky(rng, True) for _ in range(40)]
     return cases
 
 
@@ -732,12 +800,23 @@ class _Cfg:
     def vary_text(self, path):
         return b"accept-encoding, range" + b"".join(b", " + n for (n, _, _) in self.rules(path))
 
+    def refused(self, path, hdrs):
+        """handler kind 6 (harness/src/c05.rs): no server caching when the first component the handler renders is empty or
+        starts with 'n', 'z' or '0'"""
+        pg = self.pages[path]
+        if pg["kind"] != 6 or not pg["tuple"]:
+            return False
+        n, xf, d = pg["tuple"][0]
+        v = hdrs.get(n)
+        first = _xf(xf, v) if _text(v) else d
+        return first == b"" or first[:1] in (b"n", b"z", b"0")
+
     def rendering(self, path, query, hdrs):
         pg = self.pages[path]
         want = pg["prefix"]
         if pg["kind"] == 5 and query:
             want += b"?" + query
-        if pg["kind"] in (3, 5):
+        if pg["kind"] in (3, 5, 6):
             for (n, xf, d) in pg["tuple"]:
                 v = hdrs.get(n)
                 want += b"|" + (_xf(xf, v) if _text(v) else d)
@@ -759,6 +838,15 @@ def _sanitize(path, hdrs):
             return False, None
         return True, (a, b + 1)
     return True, None
+
+
+def _redirect_target(path):
+    """extensions::uri_redirect_target with the default host options"""
+    if path.endswith(b"."):
+        return path + b"html"
+    if path.endswith(b"/"):
+        return path + b"index.html"
+    return path
 
 
 def _split(target):
@@ -792,11 +880,24 @@ def _history_oracle(c, out, wire_):
         if kind in (5, 6):
             return None                     # park/release: not a sequential history
         if kind == 1:
+            # clear_page(host, uri): the URI as given and (kvarn 8ff8142) what the default redirect makes of it
+            # ("<p>." -> "<p>.html", "<p>/" -> "<p>/index.html"), whether or not the redirect extension is mounted
             path, q = _split(o[1][1][1])
-            store.pop(("pq", path, q), None)
-            store.pop(("p", path), None)
+            for p_ in (path, _redirect_target(path)):
+                store.pop(("pq", p_, q), None)
+                store.pop(("p", p_), None)
         elif kind == 2:
             store.clear()
+        elif kind == 4 and x != UNREADABLE and cf.cache and x[0] == "L" and len(x[1]) == 2:
+            # the stored variants of a page are exactly the tuples computed (and admitted) since the last clear
+            path, q = _split(o[1][1][1])
+            if path in cf.pages:
+                for slot, key in ((x[1][0], ("pq", path, q)), (x[1][1], ("p", path))):
+                    dumped = {tuple(v for (_, v) in _hc(h)) for h in slot[1][0][1]} if slot[1] else None
+                    if dumped != store.get(key):
+                        return ("dump #%d of %s: the stored variants %r are not the tuples computed and admitted since the last clear %r"
+                                % (n, o[1][1][1].decode("latin1"), sorted(dumped) if dumped else dumped,
+                                   sorted(store[key]) if key in store else None))
         if kind != 0 or x[0] != "L" or len(x[1]) < 5:
             continue
         method, target = o[1][2][1], o[1][3][1]
@@ -822,6 +923,9 @@ def _history_oracle(c, out, wire_):
         t = cf.own(path, hdrs)
         gh = method in (b"GET", b"HEAD")
         expect_calls = 1
+        # a response whose handler declares no server caching is never stored: not as a new item, not as a new variant of
+        # an item (kvarn 8fe98d4) - every request for it runs the handler
+        refused = cf.refused(path, hdrs)
         if gh and cf.cache:
             kpq, kp = ("pq", path, q), ("p", path)
             key = kpq if kpq in store else kp if kp in store else None
@@ -829,22 +933,31 @@ def _history_oracle(c, out, wire_):
                 fresh = _ims_fresh(hdrs) if cf.ims else False
                 if fresh is None:
                     return None
-                # a date that is fresh for the entry: "not modified" is an answer (whether it is the right one is C04's
-                # subject; that the code gives it without looking at the variants is the model's) - computed by nobody,
-                # nothing stored.  (send() cuts a requested range out of the empty body of the 304: always the 416 page.)
-                if fresh and status == 304:
+                # a date that is fresh for the entry: "not modified" is the answer exactly when the request's OWN tuple was
+                # computed since the last clear (kvarn 832d735: only a stored variant can be vouched for) - computed by
+                # nobody, nothing stored, and whatever the range header says (kvarn 9ae9b1a: a 304 is not range-sliced).
+                # A 304 for a tuple that was never computed is a variant served for a different transformed value.
+                if status == 304 and not (fresh and t in store[key]):
+                    return where + ("304 Not Modified although %s" % (
+                        "the date is not fresh" if not fresh else
+                        "no response for the transformed tuple %r was computed since the last clear" % (t,)))
+                if fresh and t in store[key]:
+                    if status != 304:
+                        return where + "status %d, expected 304 (fresh date, the request's own variant is stored)" % status
                     if len(log) != 0:
                         return where + "the handler was invoked for a request that was answered 304"
-                    continue
-                if fresh and wire_ and rg is not None and status == 416 and len(log) == 0:
+                    if body != b"":
+                        return where + "a 304 with a body"
                     continue
                 if t in store[key]:
                     expect_calls = 0
-                else:
+                elif not refused:
                     store[key].add(t)
-            else:
+            elif not refused:
                 store[kpq if cf.pages[path]["spref"] == 1 else kp] = {t}
         if len(log) != expect_calls:
+            if refused:
+                return where + "answered without a handler invocation although the handler declares no server caching for this tuple %r" % (t,)
             if expect_calls == 0:
                 return where + "the handler was invoked although a response for the transformed tuple %r is stored" % (t,)
             return where + ("no handler invocation although no response for the transformed tuple %r (query %r) was computed since the last clear"
@@ -986,28 +1099,30 @@ THEOREM_PINS = [
     ('stale_position_safe',
      "forall (hstate : Type) (compute : hstate -> request -> bool -> fat * hstate * list bytes) (cache_on ims_on : bool) (negotiate : request -> fat -> option (N * bytes)) (rules_of : bytes -> list rule) (dbg : bool) (c : vcache) (hs : hstate) (now : N) (p : parked), InvV hstate compute rules_of c -> parked_ok rules_of p -> exists (st' : vstate hstate) (rp : reply) (lg : list bytes), serveV_phase2 hstate compute cache_on ims_on negotiate rules_of dbg c hs now p = Ok (st', rp, lg, [parked_req p]) /\\ InvV hstate compute rules_of (fst st') /\\ own_reply hstate compute negotiate rules_of (parked_req p) rp /\\ snd st' = snd (fst (compute hs (parked_req p) (parked_flag p))) /\\ lg = snd (compute hs (parked_req p) (parked_flag p))"),
     ('vector_refines_assoc_list',
-     'forall (hstate : Type) (compute : hstate -> request -> bool -> fat * hstate * list bytes) (cache_on ims_on : bool) (parse_ims : bytes -> option Z) (sanitize_ok : request -> bool) (prime : request -> request) (negotiate : request -> fat -> option (N * bytes)) (rules_of : bytes -> list rule) (dbg : bool), (forall (hs : hstate) (r : request) (ok : bool), assoc (B "vary") (f_headers (fst (fst (compute hs r ok)))) = None) -> forall (ops : list op) (cV : vcache) (c : cache) (hs : hstate) (now : N), InvV hstate compute rules_of cV -> cache_rel rules_of cV c -> exists l : list (obs * list request), runV hstate compute cache_on ims_on parse_ims sanitize_ok prime negotiate rules_of dbg (cV, hs) now ops = Ok l /\\ map fst l = run hstate compute cache_on ims_on parse_ims sanitize_ok prime negotiate (vary_tuple_of rules_of) (vary_header_of rules_of) (c, hs) now ops'),
+     'forall (hstate : Type) (compute : hstate -> request -> bool -> fat * hstate * list bytes) (cache_on ims_on : bool) (parse_ims : bytes -> option Z) (sanitize_ok : request -> bool) (prime : request -> request) (negotiate : request -> fat -> option (N * bytes)) (rules_of : bytes -> list rule) (dbg : bool), (forall (hs : hstate) (r : request) (ok : bool), assoc (B "vary") (f_headers (fst (fst (compute hs r ok)))) = None) -> forall (ops : list op) (cV : vcache) (c : cachex) (hs : hstate) (now : N), InvV hstate compute rules_of cV -> cache_rel rules_of cV c -> exists l : list (obs * list request), runV hstate compute cache_on ims_on parse_ims sanitize_ok prime negotiate rules_of dbg (cV, hs) now ops = Ok l /\\ map (fun oc : obs * list request => obx_of (fst oc)) l = runX hstate (computeX hstate compute) cache_on ims_on true true true true true true status_filter_drop parse_ims sanitize_ok prime no_override (negotiateX negotiate) (vary_tupleX rules_of) (vary_headerX rules_of) redirect_target (c, hs) now (map opx_of ops)'),
     ('vary_cache_transparent',
-     'forall (hstate : Type) (compute : hstate -> request -> bool -> fat * hstate * list bytes) (ims_on : bool) (parse_ims : bytes -> option Z) (sanitize_ok : request -> bool) (prime : request -> request) (negotiate : request -> fat -> option (N * bytes)) (rules_of : bytes -> list rule) (dbg : bool), (forall (hs : hstate) (r : request) (ok : bool), assoc (B "vary") (f_headers (fst (fst (compute hs r ok)))) = None) -> forall cf : request -> bool -> fat, (forall (hs : hstate) (r : request) (ok : bool), fst (fst (compute hs r ok)) = cf r ok) -> (forall r r\' : request, get_or_head (rq_method r) = true -> get_or_head (rq_method r\') = true -> vary_tuple_of rules_of r = vary_tuple_of rules_of r\' -> rq_path r = rq_path r\' -> (qm (cf r true) = true -> path_query r = path_query r\') -> cf r true = cf r\' true) -> (forall r r\' : request, rq_path r = rq_path r\' -> qm (cf r true) = qm (cf r\' true)) -> (forall r : request, f_spref (cf r false) = SP_NONE) -> forall (ops : list op) (hs hsU : hstate) (now : N), Forall (op_no_ims ims_on prime) ops -> exists l : list (obs * list request), runV hstate compute true ims_on parse_ims sanitize_ok prime negotiate rules_of dbg ([], hs) now ops = Ok l /\\ Forall2 obs_equiv (map fst l) (run hstate compute false ims_on parse_ims sanitize_ok prime negotiate (vary_tuple_of rules_of) (vary_header_of rules_of) ([], hsU) now ops)'),
+     'forall (hstate : Type) (compute : hstate -> request -> bool -> fat * hstate * list bytes) (ims_on : bool) (parse_ims : bytes -> option Z) (sanitize_ok : request -> bool) (prime : request -> request) (negotiate : request -> fat -> option (N * bytes)) (rules_of : bytes -> list rule) (dbg : bool), (forall (hs : hstate) (r : request) (ok : bool), assoc (B "vary") (f_headers (fst (fst (compute hs r ok)))) = None) -> forall cf : request -> bool -> fat, (forall (hs : hstate) (r : request) (ok : bool), fst (fst (compute hs r ok)) = cf r ok) -> (forall r r\' : request, get_or_head (rq_method r) = true -> get_or_head (rq_method r\') = true -> vary_tuple_of rules_of r = vary_tuple_of rules_of r\' -> rq_path r = rq_path r\' -> (qm (cf r true) = true -> path_query r = path_query r\') -> cf r true = cf r\' true) -> (forall r : request, f_spref (cf r false) = SP_NONE) -> forall (ops : list op) (hs hsU : hstate) (now : N), Forall (op_no_ims ims_on prime) ops -> exists l lU : list (obs * list request), runV hstate compute true ims_on parse_ims sanitize_ok prime negotiate rules_of dbg ([], hs) now ops = Ok l /\\ runV hstate compute false ims_on parse_ims sanitize_ok prime negotiate rules_of dbg ([], hsU) now ops = Ok lU /\\ Forall2 obs_equiv (map fst l) (map fst lU)'),
     ('stale_position_v0_refuted',
      '(run_vary_v0 stale_panic_history = XL [XN 2] /\\ run_vary stale_panic_history = stale_panic_history_out) /\\ run_vary_v0 stale_unsorted_history = stale_unsorted_history_out_v0 /\\ run_vary stale_unsorted_history = stale_unsorted_history_out'),
     ('wire_vary_advertised',
      'forall (hstate : Type) (compute : hstate -> request -> bool -> fat * hstate * list bytes) (cache_on ims_on : bool) (parse_ims : bytes -> option Z) (sanitize_ok : request -> bool) (prime : request -> request) (negotiate : request -> fat -> option (N * bytes)) (rules_of : bytes -> list rule) (dbg : bool) (package : request -> list (bytes * bytes) -> list (bytes * bytes)) (err416_body : bytes) (ops : list op) (c : vcache) (hs : hstate) (now : N), InvV hstate compute rules_of c -> (forall (r : request) (hs0 : list (bytes * bytes)), assoc (B "vary") (package r hs0) = assoc (B "vary") hs0) -> exists l : list (obs * list request), runV hstate compute cache_on ims_on parse_ims sanitize_ok prime negotiate rules_of dbg (c, hs) now ops = Ok l /\\ Forall2 (fun (o : op) (oc : obs * list request) => match o with | OReq r0 => match fst oc with | ObReply rp _ => forall (san : option (option (N * N))) (w : wreply), send_v rules_of package err416_body true (prime r0) san rp = Ok w -> w_body w <> [] -> assoc (B "vary") (w_headers w) = Some (B "accept-encoding, range" ++ concat (map (fun ru : rule => B ", " ++ ru_name ru) (rules_of (rq_path (prime r0))))) | _ => True end | _ => True end) ops l'),
     ('send_keeps_vary',
-     'forall (rules_of : bytes -> list rule) (package : request -> list (bytes * bytes) -> list (bytes * bytes)) (err416_body : bytes) (fixed : bool) (r : request) (san : option (option (N * N))) (rp : reply) (w : wreply), (forall (r\' : request) (hs0 : list (bytes * bytes)), assoc (B "vary") (package r\' hs0) = assoc (B "vary") hs0) -> send_v rules_of package err416_body fixed r san rp = Ok w -> ~ (exists (rg : option (N * N)) (e : N), san = Some rg /\\ apply_range true rg (rp_status rp) (rp_body rp) = Err e) -> assoc (B "vary") (w_headers w) = assoc (B "vary") (rp_headers rp) /\\ (w_body w <> [] -> rp_body rp <> [])'),
-    ('not_modified_before_variant_lookup',
-     'forall (hstate : Type) (compute : hstate -> request -> bool -> fat * hstate * list bytes) (cache_on ims_on : bool) (parse_ims : bytes -> option Z) (sanitize_ok : request -> bool) (prime : request -> request) (negotiate : request -> fat -> option (N * bytes)) (rules_of : bytes -> list rule) (dbg : bool) (c : vcache) (hs : hstate) (now : N) (r0 : request) (k : key) (e : ventry) (c1 : vcache), cache_on = true /\\ ims_on = true /\\ vlookup (prime r0) c now = (k, Some e, c1) /\\ sanitize_ok r0 = true /\\ get_or_head (rq_method (prime r0)) = true /\\ (exists (v : bytes) (t : Z), header (B "if-modified-since") (prime r0) = Some v /\\ parse_ims v = Some t /\\ ims_fresh t (ve_created e) = true) -> serveV hstate compute cache_on ims_on parse_ims sanitize_ok prime negotiate rules_of dbg (c, hs) now r0 = Ok (c1, hs, {| rp_status := 304; rp_headers := []; rp_body := []; rp_identity := []; rp_last_modified := ims_on; rp_from_cache := true |}, [], [])'),
+     'forall (rules_of : bytes -> list rule) (package : request -> list (bytes * bytes) -> list (bytes * bytes)) (err416_body : bytes) (fixed : bool) (r : request) (san : option (option (N * N))) (rp : reply) (w : wreply), (forall (r\' : request) (hs0 : list (bytes * bytes)), assoc (B "vary") (package r\' hs0) = assoc (B "vary") hs0) -> send_v rules_of package err416_body fixed r san rp = Ok w -> ~ (exists (rg : option (N * N)) (e : N), san = Some rg /\\ (rp_status rp =? 304) = false /\\ apply_range true rg (rp_status rp) (send_body rp) = Err e) -> assoc (B "vary") (w_headers w) = assoc (B "vary") (rp_headers rp) /\\ (w_body w <> [] -> rp_body rp <> [])'),
+    ('wire_not_modified_as_is',
+     'forall (rules_of : bytes -> list rule) (package : request -> list (bytes * bytes) -> list (bytes * bytes)) (err416_body : bytes) (fixed : bool) (r : request) (san : option (option (N * N))) (rp : reply), rp_status rp = 304 -> send_v rules_of package err416_body fixed r san rp = Ok {| w_status := 304; w_headers := package r (rp_headers rp); w_body := []; w_last_modified := rp_last_modified rp |}'),
+    ('not_modified_only_for_stored_variant',
+     'forall (hstate : Type) (compute : hstate -> request -> bool -> fat * hstate * list bytes) (cache_on ims_on : bool) (parse_ims : bytes -> option Z) (sanitize_ok : request -> bool) (prime : request -> request) (negotiate : request -> fat -> option (N * bytes)) (rules_of : bytes -> list rule) (dbg : bool) (c : vcache) (hs : hstate) (now : N) (r0 : request) (k : key) (e : ventry) (c1 : vcache), InvV hstate compute rules_of c -> cache_on = true /\\ ims_on = true /\\ vlookup (prime r0) c now = (k, Some e, c1) /\\ sanitize_ok r0 = true /\\ get_or_head (rq_method (prime r0)) = true /\\ (exists (v : bytes) (t : Z), header (B "if-modified-since") (prime r0) = Some v /\\ parse_ims v = Some t /\\ ims_fresh t (ve_created e) = true) -> (forall p : fat * hcoll, vr_get_by_request (ve_var e) (prime r0) = Ok (Hit p) -> serveV hstate compute cache_on ims_on parse_ims sanitize_ok prime negotiate rules_of dbg (c, hs) now r0 = Ok (c1, hs, {| rp_status := 304; rp_headers := []; rp_body := []; rp_identity := []; rp_last_modified := ims_on; rp_from_cache := true |}, [], [])) /\\ (forall (pos : nat) (hc : hcoll), vr_get_by_request (ve_var e) (prime r0) = Ok (Miss pos hc) -> exists (st\' : vstate hstate) (rp : reply) (lg : list bytes), serveV hstate compute cache_on ims_on parse_ims sanitize_ok prime negotiate rules_of dbg (c, hs) now r0 = Ok (st\', rp, lg, [prime r0]) /\\ own_reply hstate compute negotiate rules_of (prime r0) rp)'),
     ('not_modified_same_entry_sound',
      'forall (hstate : Type) (compute : hstate -> request -> bool -> fat * hstate * list bytes) (rules_of : bytes -> list rule) (c : vcache) (k : key) (e : ventry) (r r1 : request) (p : fat * hcoll), InvV hstate compute rules_of c -> pc_find k c = Some e -> kpath k = rq_path r -> rq_path r1 = rq_path r -> own_tuple rules_of r1 = own_tuple rules_of r -> vr_get_by_request (ve_var e) r1 = Ok (Hit p) -> vr_get_by_request (ve_var e) r = Ok (Hit p) /\\ snd p = own_tuple rules_of r'),
     ('entry_changes_are_dated',
      "forall (hstate : Type) (compute : hstate -> request -> bool -> fat * hstate * list bytes) (cache_on ims_on : bool) (parse_ims : bytes -> option Z) (sanitize_ok : request -> bool) (prime : request -> request) (negotiate : request -> fat -> option (N * bytes)) (rules_of : bytes -> list rule) (dbg : bool) (st : vstate hstate) (now : N) (o : op) (st' : vstate hstate) (now' : N) (ob : obs) (calls : list request), stepV hstate compute cache_on ims_on parse_ims sanitize_ok prime negotiate rules_of dbg st now o = Ok (st', now', ob, calls) -> forall k : key, pc_find k (fst st') = pc_find k (fst st) \\/ pc_find k (fst st') = None \\/ (exists e' : ventry, pc_find k (fst st') = Some e' /\\ ve_created e' = now)"),
     ('wire_416_without_vary_v0_refuted',
      '(run_vary_wire_v0 wire416_history = wire416_out_v0 /\\ run_vary_wire wire416_history = wire416_out) /\\ (forall (rules_of : bytes -> list rule) (err416_body : list N) (r : request), err416_body <> [] -> exists (rp : reply) (w : wreply), rp_body rp <> [] /\\ send_v rules_of (fun (_ : request) (hs : list (bytes * bytes)) => hs) err416_body false r (Some (Some (100, 201))) (finishV (fun (_ : request) (_ : fat) => None) r {| f_status := 200; f_headers := []; f_body := B "page"; f_spref := SP_FULL; f_compress := true |} (own_tuple rules_of r) true true) = Ok w /\\ rp = finishV (fun (_ : request) (_ : fat) => None) r {| f_status := 200; f_headers := []; f_body := B "page"; f_spref := SP_FULL; f_compress := true |} (own_tuple rules_of r) true true /\\ w_body w <> [] /\\ assoc (B "vary") (w_headers w) = None)'),
-    ('not_modified_only_for_stored_variant_refuted',
-     'run_vary ims_history = ims_history_out'),
+    ('not_modified_only_for_stored_variant_v0_refuted',
+     '(run_vary_ims_v0 ims_history = ims_history_out_v0 /\\ run_vary ims_history = ims_history_out) /\\ (forall (hstate : Type) (cache_on ims_on : bool) (parse_ims : bytes -> option Z) (sanitize_ok : request -> bool) (prime : request -> request) (negotiate : request -> fat -> option (N * bytes)) (c : vcache) (hs : hstate) (now : N) (r0 : request) (k : key) (e : ventry) (c1 : vcache), cache_on = true /\\ ims_on = true /\\ vlookup (prime r0) c now = (k, Some e, c1) /\\ sanitize_ok r0 = true /\\ get_or_head (rq_method (prime r0)) = true /\\ (exists (v : bytes) (t : Z), header (B "if-modified-since") (prime r0) = Some v /\\ parse_ims v = Some t /\\ ims_fresh t (ve_created e) = true) -> serveV_phase1_v0 hstate cache_on ims_on parse_ims sanitize_ok prime negotiate (c, hs) now r0 = Ok (inl (c1, hs, {| rp_status := 304; rp_headers := []; rp_body := []; rp_identity := []; rp_last_modified := ims_on; rp_from_cache := true |}, [], [])))'),
     ('honest_not_modified_sound',
      "forall (hstate : Type) (compute : hstate -> request -> bool -> fat * hstate * list bytes) (cache_on ims_on : bool) (parse_ims : bytes -> option Z) (sanitize_ok : request -> bool) (prime : request -> request) (negotiate : request -> fat -> option (N * bytes)) (rules_of : bytes -> list rule) (dbg : bool) (L : N) (c2 : vcache) (hs2 : hstate) (t1 : N) (ops2 : list op) (c3 : vcache) (hs3 : hstate) (t3 : N) (r r' : request) (f : fat) (k : key) (e : ventry) (c3' : vcache), InvV hstate compute rules_of c2 -> pc_find (key_pq r) c2 = None \\/ pc_find (key_p r) c2 = None -> (exists (k0 : key) (e0 : ventry), (k0 = key_pq r \\/ k0 = key_p r) /\\ pc_find k0 c2 = Some e0 /\\ vr_get_by_request (ve_var e0) r = Ok (Hit (f, own_tuple rules_of r)) /\\ L <= ve_created e0) \\/ pc_find (key_pq r) c2 = None /\\ pc_find (key_p r) c2 = None -> later L t1 ops2 -> runV_state hstate compute cache_on ims_on parse_ims sanitize_ok prime negotiate rules_of dbg (c2, hs2) t1 ops2 = Ok (c3, hs3, t3) -> path_query r' = path_query r -> own_tuple rules_of r' = own_tuple rules_of r -> vlookup r' c3 t3 = (k, Some e, c3') -> ve_created e <= L -> vr_get_by_request (ve_var e) r' = Ok (Hit (f, own_tuple rules_of r'))"),
     ('served_copy_is_held',
-     "forall (hstate : Type) (compute : hstate -> request -> bool -> fat * hstate * list bytes) (cache_on ims_on : bool), (request -> bool) -> (request -> request) -> forall (negotiate : request -> fat -> option (N * bytes)) (rules_of : bytes -> list rule) (dbg : bool), (forall (r : request) (c : vcache) (now : N) (k : key) (e : ventry) (c1 : vcache) (f : fat), vlookup r c now = (k, Some e, c1) -> vr_get_by_request (ve_var e) r = Ok (Hit (f, own_tuple rules_of r)) -> holds_copy rules_of c1 r f (ve_created e)) /\\ (forall (c1 : vcache) (hs' : hstate) (now : N) (r : request) (f : fat) (lg : list bytes) (lm_of : fat -> bool) (cached : bool) (st' : vstate hstate) (rp : reply) (lg' : list bytes) (calls : list request), may_store cache_on (rq_method r) f = true -> new_and_cache hstate cache_on negotiate rules_of dbg c1 hs' now r f lg lm_of cached = Ok (st', rp, lg', calls) -> holds_copy rules_of (fst st') r f now /\\ rp = finishV negotiate r f (own_tuple rules_of r) (lm_of f) cached) /\\ (forall (c : vcache) (hs : hstate) (now : N) (r : request) (ok : bool) (k : key) (e : ventry) (position : nat) (headers : hcoll) (st' : vstate hstate) (rp : reply) (lg : list bytes) (calls : list request), InvV hstate compute rules_of c -> k = key_pq r \\/ k = key_p r -> pc_find k c = Some e -> vfresh e now = true -> ve_created e <= now -> vr_get_by_request (ve_var e) r = Ok (Miss position headers) -> vary_missing hstate compute cache_on ims_on negotiate rules_of dbg c hs now r ok k position headers = Ok (st', rp, lg, calls) -> holds_copy rules_of (fst st') r (fst (fst (compute hs r ok))) (ve_created e) /\\ rp = finishV negotiate r (fst (fst (compute hs r ok))) (own_tuple rules_of r) ims_on true)"),
+     "forall (hstate : Type) (compute : hstate -> request -> bool -> fat * hstate * list bytes) (cache_on ims_on : bool), (request -> bool) -> (request -> request) -> forall (negotiate : request -> fat -> option (N * bytes)) (rules_of : bytes -> list rule) (dbg : bool), (forall (r : request) (c : vcache) (now : N) (k : key) (e : ventry) (c1 : vcache) (f : fat), vlookup r c now = (k, Some e, c1) -> vr_get_by_request (ve_var e) r = Ok (Hit (f, own_tuple rules_of r)) -> holds_copy rules_of c1 r f (ve_created e)) /\\ (forall (c1 : vcache) (hs' : hstate) (now : N) (r : request) (f : fat) (lg : list bytes) (lm_of : fat -> bool) (cached : bool) (st' : vstate hstate) (rp : reply) (lg' : list bytes) (calls : list request), may_store cache_on (rq_method r) f = true -> new_and_cache hstate cache_on negotiate rules_of dbg c1 hs' now r f lg lm_of cached = Ok (st', rp, lg', calls) -> holds_copy rules_of (fst st') r f now /\\ rp = finishV negotiate r f (own_tuple rules_of r) (lm_of f) cached) /\\ (forall (c : vcache) (hs : hstate) (now : N) (r : request) (ok : bool) (k : key) (e : ventry) (position : nat) (headers : hcoll) (st' : vstate hstate) (rp : reply) (lg : list bytes) (calls : list request), InvV hstate compute rules_of c -> k = key_pq r \\/ k = key_p r -> pc_find k c = Some e -> vfresh e now = true -> ve_created e <= now -> vr_get_by_request (ve_var e) r = Ok (Miss position headers) -> vary_missing hstate compute cache_on ims_on negotiate rules_of dbg c hs now r ok k position headers = Ok (st', rp, lg, calls) -> rp = finishV negotiate r (fst (fst (compute hs r ok))) (own_tuple rules_of r) ims_on true /\\ (if variant_accepted cache_on k r (fst (fst (compute hs r ok))) then holds_copy rules_of (fst st') r (fst (fst (compute hs r ok))) (ve_created e) else fst st' = c))"),
 ]
 THEOREMS = THEOREM_PINS
